@@ -677,3 +677,13 @@ func (s *Sim) TaskID() int {
 	}
 	return 0
 }
+
+// Flip is a tape-driven coin used by instrumented selects to fix the order in
+// which ready cases are polled (false when no simulator is attached).
+func Flip(site string) bool {
+	s := cur.Load()
+	if s == nil || goid() == s.rootGID {
+		return false
+	}
+	return s.Choose(2, "select.order") == 1
+}
